@@ -27,6 +27,17 @@ def Table.get (f : K → V) (store : K → Bool) (t : Table K V) (k : K) : Table
   | some v => (t, v)
   | none => (if store k then ⟨t.entries ++ [(k, f k)]⟩ else t, f k)
 
+/-- the step as the Go getters perform it: the caller asks for `x`, the table is consulted under the
+key `κ x`, on a miss `f x` is computed and stored under `κ x` -/
+def Table.getK {X : Type} (κ : X → K) (f : X → V) (t : Table K V) (x : X) : Table K V × V :=
+  match t.find (κ x) with
+  | some v => (t, v)
+  | none => (⟨t.entries ++ [(κ x, f x)]⟩, f x)
+
+/-- every stored value is the function's value for SOME request with that key -/
+def InvK {X : Type} (κ : X → K) (f : X → V) (t : Table K V) : Prop :=
+  ∀ k v, (k, v) ∈ t.entries → ∃ x, κ x = k ∧ v = f x
+
 /-- every stored value is the function's value -/
 def Inv (f : K → V) (t : Table K V) : Prop := ∀ k v, (k, v) ∈ t.entries → v = f k
 
